@@ -4,5 +4,6 @@ CONSTANTS
   MaxSessions = 1
   QueriesPerReader = 1
   LockBeforeBump = TRUE
+  DropSessions = TRUE
   Emit = TRUE
 CHECK_DEADLOCK FALSE
